@@ -30,6 +30,8 @@ C13_CASE(divide_broadcast, C13_DTYPES_FLOAT, 7, { auto s = shape_nd(d, 0); auto 
 C13_CASE(multiply_scalar, C13_DTYPES_ALL, 5, { auto a = make_operand<T>(shape_nd(d, 0), r, 0); auto v = view::multiply(a, (T)3); EVAL(v); })
 C13_CASE(scalar_subtract, C13_DTYPES_ALL, 5, { auto a = make_operand<T>(shape_nd(d, 0), r, 0); auto v = view::subtract((T)2, a); EVAL(v); })
 C13_CASE(maximum_broadcast, C13_DTYPES_ALL, 7, { auto s = shape_nd(d, 0); auto a = make_operand<T>(s, r, 0); auto b = make_operand<T>(broadcast_partner(s, d, 5), r, 0); auto v = view::maximum(a, b); EVAL(v); })
+// geometry probe: a 1-d output of `big_n` elements (plan key), only meaningful with dev.geometry_only=1 (no thread is executed)
+C13_FINDING_CASE(big_1d_relu, C13_DTYPES_FLOAT, 1, { size_t n = (size_t)plan.getu("big_n", 1000); darr<T> a; a.resize(Shape{n}); T* p = nm::data(a); for (size_t i = 0; i < n; i += 4099) p[i] = (T)1; auto v = view::relu(a); EVAL(v); })
 // compositions (depth 2-3), repeated leaf, binary tree
 C13_CASE(tanh_add_scalar, C13_DTYPES_FLOAT, 5, { auto a = make_operand<T>(shape_nd(d, 0), r, 1); auto x = view::add(a, (T)0.5); auto v = view::tanh(x); EVAL(v); })
 C13_CASE(add_same_leaf, C13_DTYPES_ALL, 5, { auto a = make_operand<T>(shape_nd(d, 0), r, 0); auto v = view::add(a, a); EVAL(v); })
